@@ -2,7 +2,7 @@
    shape : list Z is the cube's array shape; raw the user's index item (tuple entries);
    cube_getitem is the transcription of NDCubeSlicingMixin.__getitem__ composed with the dependency
    models of numpy indexing (np_axis_sel) and SlicedLowLevelWCS (wcs_axis_sel). *)
-From NDV Require Import M_Slicing P_Slicing.
+From NDV Require Import M_Slicing P_Slicing P_SlicingChain.
 
 (* None / newaxis anywhere in the item is rejected with IndexError *)
 Theorem C01_none_rejected : forall shape raw, In INone raw -> cube_getitem shape raw = Err EIndex.
@@ -39,6 +39,13 @@ Theorem C01_rank_shape : forall shape raw r, Forall (fun n => 0 <= n) shape ->
   length (filter kept (wsel r)) = length (wshape r) /\ wshape r = sels_shape (dsel r).
 Proof. exact getitem_rank_shape. Qed.
 Print Assumptions C01_rank_shape.
+
+(* chains of slices: after ANY number of successive slices every element of the final cube reports, for every inner
+   WCS, the world coordinates of the element of the original cube its data came from *)
+Theorem C01_chain : forall raws shape ss, Forall (fun n => 0 <= n) shape -> chain shape raws = Ok ss ->
+  forall (T : Type) (W : list Z -> T) (k : list Z), W (chain_wcs ss k) = W (chain_src ss k).
+Proof. exact chain_elementwise. Qed.
+Print Assumptions C01_chain.
 
 Example C01_nonvacuous :
   exists r, cube_getitem [4; 5; 6] [IInt (-1); IEllipsis; ISlice (Some (-2)) (Some 99) None] = Ok r /\
